@@ -657,7 +657,7 @@ fn oracle_c07m(fields: &[&str]) -> String {
         let dn = (p[1] - q[1]).abs() * a;
         let de = (p[0] - q[0]).abs() * a * q[1].cos().abs();
         let du = if abridged { 0.0 } else { (p[2] - q[2]).abs() };
-        worst = worst.max(dn).max(de).max(du);
+        worst = nmax(nmax(nmax(worst, dn), de), du);
     }
     if worst.is_nan() || worst > tol {
         return format!("oracle FAIL molodensky differs from the cartesian path by {worst:.4} m (tolerance {tol} m): {mdef}");
@@ -2972,6 +2972,16 @@ fn oracle_c10w(fields: &[&str]) -> String {
 }
 
 /// distance on the ground between two operands of the given kind
+/// the larger of two numbers, NaN if either is (`f64::max` drops a NaN operand: a result that is not a number
+/// must not pass for a distance of zero)
+fn nmax(a: f64, b: f64) -> f64 {
+    if a.is_nan() || b.is_nan() {
+        f64::NAN
+    } else {
+        a.max(b)
+    }
+}
+
 fn ground_distance(space: &str, a: &Coor4D, b: &Coor4D) -> f64 {
     let r = 6.4e6;
     match space {
@@ -2984,7 +2994,7 @@ fn ground_distance(space: &str, a: &Coor4D, b: &Coor4D) -> f64 {
             // (the radius of the parallel: at a pole the longitude means nothing)
             let dlon = dl * r * a[1].cos().abs().min(1.0);
             let dh = if space == "geo3" { (a[2] - b[2]).abs() } else { 0.0 };
-            dlat.max(dlon).max(dh)
+            nmax(nmax(dlat, dlon), dh)
         }
         "deg" => {
             let dlat = (a[0] - b[0]).abs().to_radians() * r;
@@ -2992,7 +3002,7 @@ fn ground_distance(space: &str, a: &Coor4D, b: &Coor4D) -> f64 {
             if dl > 180.0 {
                 dl = 360.0 - dl;
             }
-            dlat.max(dl.to_radians() * r * a[0].to_radians().cos().abs()).max((a[2] - b[2]).abs())
+            nmax(nmax(dlat, dl.to_radians() * r * a[0].to_radians().cos().abs()), (a[2] - b[2]).abs())
         }
         "geodesic" => {
             // (lat, lon, azimuth, distance) in degrees and metres
@@ -3002,9 +3012,9 @@ fn ground_distance(space: &str, a: &Coor4D, b: &Coor4D) -> f64 {
             if da > 180.0 {
                 da = 360.0 - da;
             }
-            dlat.max(dlon).max(da.to_radians() * a[3].abs().min(r)).max((a[3] - b[3]).abs())
+            nmax(nmax(nmax(dlat, dlon), da.to_radians() * a[3].abs().min(r)), (a[3] - b[3]).abs())
         }
-        _ => (0..3).map(|i| (a[i] - b[i]).abs()).fold(0.0, f64::max),
+        _ => (0..3).map(|i| (a[i] - b[i]).abs()).fold(0.0, nmax),
     }
 }
 
@@ -3064,7 +3074,7 @@ fn oracle_c01d(fields: &[&str]) -> String {
             return format!("oracle FAIL {def}: inside the coverage but {n1} / {n2} of {} transformed", cart.len());
         }
         for (p, q) in cart.iter().zip(back.iter()) {
-            let d = (0..3).map(|i| (p[i] - q[i]).abs()).fold(0.0, f64::max);
+            let d = (0..3).map(|i| (p[i] - q[i]).abs()).fold(0.0, nmax);
             if !(d <= 5e-6) {
                 return format!("oracle FAIL {def}: ({}, {}, {}) comes back {:.3e} m away", p[0], p[1], p[2], d);
             }
@@ -3847,7 +3857,7 @@ fn oracle_c07t(fields: &[&str]) -> String {
     };
     for (i, p) in pts.iter().enumerate() {
         for (x, y, what) in [(&a[i], &b[i], "position_vector forward vs coordinate_frame inverse"), (&c[i], &d[i], "position_vector inverse vs coordinate_frame forward")] {
-            let dist = (0..3).map(|j| (x[j] - y[j]).abs()).fold(0.0, f64::max);
+            let dist = (0..3).map(|j| (x[j] - y[j]).abs()).fold(0.0, nmax);
             if !(dist < 1e-6) {
                 return format!("oracle FAIL {what}: ({}, {}, {}) vs ({}, {}, {}) for {pv}", x[0], x[1], x[2], y[0], y[1], y[2]);
             }
